@@ -15,7 +15,7 @@ THOROUGH = [("pipe_thorough", 12000), ("pt_thorough", 10000), ("pipe_ref_thoroug
 FORMULAS = {
     "C01": ["NoLeak", "AtMostOne", "NameStable", "Quiescent", "Tie", "RefKept", "Refs.Stable", "Refs.Complete"],
     "C04": ["Observed.Complete"],
-    "C03": ["FailSafe.Writes", "FailSafe.Refs", "NeverDeleteDesired", "NeverDeleteDesired.Made", "GcExact.Missed", "GcExact.Extra"],
+    "C03": ["FailSafe.Writes", "FailSafe.NothingBefore", "FailSafe.Refs", "NeverDeleteDesired", "NeverDeleteDesired.Made", "GcExact.Missed", "GcExact.Extra"],
     "C02": ["ForeignUntouched"],
 }
 
